@@ -26,6 +26,7 @@ from ..selftest import Twin
 from ._engine import CL, CL_REL, RUNNER, wf_modules
 
 EXPLANATION = __doc__.split("\n\n", 1)[1]
+TECHNIQUE = 'static analysis: def-use across paths (routing tables assigned before every return / rebuilt by the caller), finite AST evaluation of the budget decision and of the handler collection'
 TRUSTED = ["CPython ast"]
 WFM = "workflows.workflow"
 WF_REL = "packages/llama-index-workflows/src/workflows/workflow.py"
